@@ -16,6 +16,12 @@ CoarseT  == { S(2, 0, 2, {0, 4, 8}, {8}, "coarse"), S(3, -1, 2, {0, 4, 8}, {8}, 
               S(2, -1, 3, {0, 4, 8}, {8}, "coarse") }
 MCShapesT == FineT(-2) \cup FineT(0) \cup FineT(3) \cup CoarseT
 
+\* translations of the support (numerators over Q, in units of delta_z): v_min = (vmin + sh/Q) delta_z.
+\* ShiftCovariant is an invariant of the dump configurations (it does not depend on the weights p, and the dumped
+\* cases are exactly the ones replayed on translated supports)
+MCShifts  == {-3, -2, -1, 0, 1, 2, 3, 5}
+MCShiftsQ == {-3, -1, 1, 2}                    \* the ones the quick tier replays on
+
 \* quick-tier replay grid: the full reward x done x discount grid of MCShapesQ, fewer weight vectors
 DumpQ(v) == { S(2, v, 1, 0..4, {3, 4, 5}, "fine"), S(3, v, 1, 0..4, {4}, "fine"), S(4, v, 1, {0, 2, 4}, {4}, "fine") }
 MCShapesD == DumpQ(-2) \cup DumpQ(1) \cup { S(5, -2, 1, {0, 2, 4}, {4}, "fine") } \cup CoarseQ
